@@ -85,7 +85,8 @@ impl LayerContents {
             if !seen_names.insert(name) {
                 return Err(FontLoadError::DuplicateLayerName(name.to_string()));
             }
-            if !seen_dirs.insert(dir) {
+            // compared without case, like the set of taken directories
+            if !seen_dirs.insert(dir.to_string_lossy().to_lowercase()) {
                 return Err(FontLoadError::DuplicateLayerDirectory(path.clone()));
             }
             if name.as_str() == DEFAULT_LAYER_NAME && dir != OsStr::new(DEFAULT_GLYPHS_DIRNAME) {
@@ -386,7 +387,8 @@ impl Layer {
                     path: path.clone(),
                 });
             };
-            if !seen_files.insert(file_name) {
+            // compared without case, like the set of taken file names
+            if !seen_files.insert(file_name.to_string_lossy().to_lowercase()) {
                 return Err(LayerLoadError::DuplicateGlyphFileName(path.clone()));
             }
         }
